@@ -27,10 +27,12 @@ import (
 	mh "github.com/multiformats/go-multihash"
 )
 
+// Block sizes sit on both sides of the want-have replace size: a "small" block is exactly as large as the
+// replace size (still sent in place of a HAVE), a "big" one is one byte larger.
 const (
-	c36SmallSize   = 24
-	c36BigSize     = 300
 	c36ReplaceSize = 100
+	c36SmallSize   = c36ReplaceSize
+	c36BigSize     = c36ReplaceSize + 1
 	c36MaxCidSize  = 50
 )
 
@@ -210,6 +212,31 @@ func (s *c36Sys) pend(p int) []int {
 	sort.Ints(res)
 	return res
 }
+// projection of the per-CID index of the ledger (peerLedger.Peers, the index NotifyNewBlocks reads): for
+// every peer the sorted [c, prio, "B"|"H"] entries filed under the CIDs.  The specification has ONE
+// want-list per peer, so this view must show the same entries as WantlistForPeer.
+func (s *c36Sys) allInv() [][][]any {
+	r := make([][][]any, s.np)
+	for p := range r {
+		r[p] = [][]any{}
+	}
+	s.e.lock.RLock()
+	for c := 1; c <= s.nc; c++ {
+		for _, pe := range s.e.peerLedger.Peers(s.cids[c-1]) {
+			pi := s.peerNum(pe.Peer)
+			if pi < 1 || pi > s.np {
+				continue
+			}
+			wt := "H"
+			if pe.WantType == pb.Message_Wantlist_Block {
+				wt = "B"
+			}
+			r[pi-1] = append(r[pi-1], []any{c, int(pe.Priority), wt})
+		}
+	}
+	s.e.lock.RUnlock()
+	return r
+}
 func (s *c36Sys) allWl() [][][]any {
 	r := [][][]any{}
 	for p := 1; p <= s.np; p++ {
@@ -250,11 +277,11 @@ func (s *c36Sys) recv(st c36Step) {
 	})
 	if pn != "" { // the engine crashed on this message (and may hold its lock): report, give up the run
 		s.dead = true
-		vEmit(M{"ev": "Recv", "p": st.P, "full": st.Full, "es": st.Es, "wl": [][]any{}, "pend": [][]int{}, "pk": false,
+		vEmit(M{"ev": "Recv", "p": st.P, "full": st.Full, "es": st.Es, "wl": [][]any{}, "inv": [][]any{}, "pend": [][]int{}, "pk": false,
 			"kill": false, "panic": pn})
 		return
 	}
-	vEmit(M{"ev": "Recv", "p": st.P, "full": st.Full, "es": st.Es, "wl": s.allWl(), "pend": s.allPend(),
+	vEmit(M{"ev": "Recv", "p": st.P, "full": st.Full, "es": st.Es, "wl": s.allWl(), "inv": s.allInv(), "pend": s.allPend(),
 		"pk": s.parked, "kill": kill, "panic": ""})
 }
 
@@ -278,7 +305,7 @@ func (s *c36Sys) add(c int) {
 		panic(err)
 	}
 	s.e.NotifyNewBlocks([]blocks.Block{b})
-	vEmit(M{"ev": "Add", "c": c, "wl": s.allWl(), "pend": s.allPend(), "pk": s.parked})
+	vEmit(M{"ev": "Add", "c": c, "wl": s.allWl(), "inv": s.allInv(), "pend": s.allPend(), "pk": s.parked})
 }
 
 func (s *c36Sys) remove(c int) {
@@ -378,7 +405,11 @@ func (s *c36Sys) drain() {
 		// what the server does with an envelope: MessageSent, send, Sent
 		s.e.MessageSent(env.Peer, env.Message)
 		env.Sent()
-		vEmit(M{"ev": "Env", "p": p, "blocks": bl, "haves": hv, "dhs": dh, "wl": s.wl(p), "pend": s.pend(p),
+		inv := [][]any{}
+		if p >= 1 && p <= s.np {
+			inv = s.allInv()[p-1]
+		}
+		vEmit(M{"ev": "Env", "p": p, "blocks": bl, "haves": hv, "dhs": dh, "wl": s.wl(p), "inv": inv, "pend": s.pend(p),
 			"detail": detail, "wants": len(env.Message.Wantlist())})
 	}
 	vEmit(M{"ev": "Idle", "pend": s.allPend()})
